@@ -10,8 +10,8 @@ def scenarios(ctx):
 
 def names_for(sc, driver):
     # awkward concrete names (spaces, unicode, non-UTF-8 bytes) below the roots; roots stay plain (argv must be UTF-8)
-    if sc["cls"] != "mapping" or sc.get("glob"):
-        return None
+    if sc["cls"] != "mapping" or sc.get("glob") or "--backup" in sc.get("extra", []):
+        return None          # backup names are derived from the names themselves: keep them literal
     rnd = rng("C02names", sc["id"], driver)
     if rnd.random() < 0.5:
         return None
